@@ -93,7 +93,7 @@ class C11(Prop):
     design_ref = "DESIGN.md section 3, C11"
     rule = ("document contents: every content forest up to the bound over html/head/body/div/text and four dependency "
             "kinds (same name at two versions, URL-sourced, head_content) x three html-attribute argument sets (TLC), and "
-            "seeded random contents (deeper, appended later, lib_prefix None/lib/a/b, include_version on/off).  "
+            "seeded random contents (deeper, appended later, lib_prefix None/lib/a/b and spellings a path library would normalise (./lib, lib/, a//b, ., a/./b, ../up), include_version on/off).  "
             "Non-trivial: the content has a dependency, or is a lone <html>/<body>.")
     assumptions = [
         "'tokenizes' is defined by the harness tokenizer (see C01); layout whitespace at the ends of text runs is ignored",
@@ -119,7 +119,7 @@ class C11(Prop):
         gens = []
         for i, ln in enumerate(lines):
             gens.append({"kind": "doc", "tree": ln["tree"], "args": [[a["n"], "".join(map(chr, a["v"]))] for a in ln["args"]],
-                         "prefix": ["lib", None, "a/b"][i % 3], "inclver": i % 2 == 0, "later": i % 5 == 0, "prerender": i % 10 == 0})
+                         "prefix": ["lib", None, "a/b", "./lib", "lib/", "a//b", "."][i % 7], "inclver": i % 2 == 0, "later": i % 5 == 0, "prerender": i % 10 == 0})
         return gens
 
     def gens_random(self, tier, rnd):
@@ -145,7 +145,7 @@ class C11(Prop):
             args = rnd.choice([[], [["lang", "en"]], [["id", "y"], ["lang", "en"]], [["class", "c d"]],
                                [["data-level", 0], ["lang", ""]], [["lang", ""], ["data-n", 0.0], ["id", "z"]]])
             gens.append({"kind": "doc", "tree": {"k": "root", "c": top}, "args": args,
-                         "prefix": rnd.choice(["lib", None, "a/b", "x"]), "inclver": rnd.random() < 0.5, "later": rnd.random() < 0.3,
+                         "prefix": rnd.choice(["lib", None, "a/b", "x", "./lib", "lib/", "a//b", ".", "a/./b", "../up"]), "inclver": rnd.random() < 0.5, "later": rnd.random() < 0.3,
                          "prerender": rnd.random() < 0.5, "twice": rnd.random() < 0.3,
                          "seq": rnd.choice(["", "", "", "shared_list", "failed_append", "grown_inside", "copied_doc", "dep_head_changed"])})
         leaf = lambda k: {"k": k, "c": []}
